@@ -85,28 +85,46 @@ pub struct BuildOpts {
 
 static PRINT_LOCK: Mutex<()> = Mutex::new(());
 
-/// runs `f` with file descriptor 1 redirected to /dev/null
-fn with_stdout_silenced<R>(f: impl FnOnce() -> R) -> R {
+/// runs `f` with file descriptor 1 redirected to an anonymous memory file and returns what was
+/// written to it (None if the redirection could not be set up: then stdout went to /dev/null or
+/// stayed where it was)
+fn with_stdout_captured<R>(f: impl FnOnce() -> R) -> (R, Option<String>) {
     use std::io::Write;
     let _g = PRINT_LOCK.lock().unwrap_or_else(|e| e.into_inner());
     let _ = std::io::stdout().flush();
     // SAFETY: plain POSIX calls on descriptors this function owns
     unsafe {
         let saved = libc::dup(1);
-        let null = libc::open(b"/dev/null\0".as_ptr() as *const libc::c_char, libc::O_WRONLY);
-        if saved >= 0 && null >= 0 {
-            libc::dup2(null, 1);
-        }
+        let mem = libc::memfd_create(b"vcheck-stdout\0".as_ptr() as *const libc::c_char, 0);
+        let redirected = saved >= 0 && mem >= 0 && libc::dup2(mem, 1) >= 0;
         let r = f();
         let _ = std::io::stdout().flush();
         if saved >= 0 {
             libc::dup2(saved, 1);
             libc::close(saved);
         }
-        if null >= 0 {
-            libc::close(null);
+        let mut text = None;
+        if mem >= 0 {
+            if redirected {
+                let len = libc::lseek(mem, 0, libc::SEEK_END);
+                if len >= 0 && len < (64 << 20) {
+                    let mut buf = vec![0u8; len as usize];
+                    libc::lseek(mem, 0, libc::SEEK_SET);
+                    let mut got = 0usize;
+                    while got < buf.len() {
+                        let n = libc::read(mem, buf[got..].as_mut_ptr() as *mut libc::c_void, buf.len() - got);
+                        if n <= 0 {
+                            break;
+                        }
+                        got += n as usize;
+                    }
+                    buf.truncate(got);
+                    text = Some(String::from_utf8_lossy(&buf).into_owned());
+                }
+            }
+            libc::close(mem);
         }
-        r
+        (r, text)
     }
 }
 
@@ -364,7 +382,10 @@ pub fn build_builder(
         ctx.debug_texts.lock().unwrap().insert(bid, text);
     }
     if opts.call_print {
-        let r = with_stdout_silenced(|| catch_unwind(AssertUnwindSafe(|| b.print_par_seq())));
+        let (r, printed) = with_stdout_captured(|| catch_unwind(AssertUnwindSafe(|| b.print_par_seq())));
+        if let Some(t) = printed {
+            ctx.printed_texts.lock().unwrap().insert(bid, t);
+        }
         if let Err(p) = r {
             ctx.debug_texts
                 .lock()
